@@ -132,6 +132,8 @@ def c19_assemble(ctx, shape, counts, payload):
         asm = P.assemble()
         ctx.ensure(f"overlap {rel}: assemble() is the base image", same(asm.img, arr))
         ctx.ensure(f"overlap {rel}: assembled image carries the base metadata", and_(eq(list(asm.origin), list(o)), eq(list(asm.dimensions), list(d))))
+        ctx.ensure(f"overlap {rel}: the assembled image is a new array (no memory shared with the base image or a patch)",
+                   asm.img is not arr and not np.shares_memory(asm.img, arr) and not any(np.shares_memory(asm.img, P(i, j).img) for i in range(counts[0]) for j in range(counts[1])))
         for i in range(counts[0]):
             for j in range(counts[1]):
                 gc = P.global_corners_voxels[i][j]
